@@ -190,6 +190,7 @@ def renderings(g1):
         r = X.respell(g1, mode, prefix=pfx or "xtce")
         out[name] = (r, arg)
         out[name + " + comments"] = (X.with_comments(r), arg)
+        out[name + " + indentation"] = (X.with_whitespace(r, "\t" if mode == "default" else "    "), arg)
     r = X.respell(g1, "none")
     r.attrs["__nsdecl__"] = {"xsi": "http://www.w3.org/2001/XMLSchema-instance"}
     attach_nsmap(r)
